@@ -485,9 +485,12 @@ def job_uri(res, L_, spec):
     """geo / mailto on concrete values (float and percent-encoding are library code)"""
     from urllib.parse import unquote, urlsplit
     H = L_.helpers
-    for lat, lng in ((38.8976763, -77.0365297), (0, 0), (-33.5, 151.25), (1e-7, 179.99999999), (90, -180)):
+    for lat, lng in ((38.8976763, -77.0365297), (0, 0), (-33.5, 151.25), (1e-7, 179.99999999), (90, -180), (0.00005, 9.5), (-0.00001234, 1e-5)):
         s = H.make_geo_data(lat, lng)
-        ok = s.startswith('geo:') and [round(float(x), 8) for x in s[4:].split(',')] == [round(float(lat), 8), round(float(lng), 8)]
+        import re as _re
+        nums = s[4:].split(',')
+        ok = s.startswith('geo:') and len(nums) == 2 and all(_re.fullmatch(r'-?[0-9]+(\.[0-9]+)?', x) for x in nums) \
+            and [round(float(x), 8) for x in nums] == [round(float(lat), 8), round(float(lng), 8)]
         res.concrete('geo-uri-carries-the-numbers (concrete)', ok, lambda s=s: res.violation('geo', s, {'fn': 'geo', 'lat': lat, 'lng': lng}))
     for subject, body in (('Hi & bye', 'a=b?c#d\r\nnext'), ('ä€', '100% "sure"'), ('', ' '), (None, 'x')):
         s = H.make_make_email_data('me@example.org', cc='you@example.org', subject=subject, body=body)
